@@ -484,9 +484,13 @@ func (c Cell) ContainsPoint(p Point) bool {
 	//   CellFromPoint(p).ContainsPoint(p)
 	//
 	// is always true. To do this, we need to account for the error when
-	// converting from (u,v) coordinates to (s,t) coordinates. In the
-	// normal case the total error is at most dblEpsilon.
-	return c.uv.ExpandedByMargin(dblEpsilon).ContainsPoint(uv)
+	// converting from (u,v) coordinates to (s,t) coordinates and back: the
+	// rounding in uvToST moves the point by up to (4|u| + 4/3) * 2^-53 in
+	// u, and the cell's own bound, stToUV of an exact (s,t) value, is off by
+	// up to (4|u| + 1/3) * 2^-53, which is less than 5 * dblEpsilon in total.
+	// (A margin of dblEpsilon is too small: points up to 1.25 * dblEpsilon
+	// outside the bound of their own leaf cell are easy to find.)
+	return c.uv.ExpandedByMargin(5 * dblEpsilon).ContainsPoint(uv)
 }
 
 // Encode encodes the Cell.
